@@ -1,6 +1,7 @@
 #!/venv/bin/python
 """Regenerate sa/reference_names.json from the current /repo tree (run when the rules are re-validated against a new tree)."""
-import json, sys
+import json, os, sys
+os.environ["VERIF_BUILDING_REFERENCE"] = "1"
 from pathlib import Path
 ROOT = Path(__file__).resolve().parent.parent
 sys.path.insert(0, str(ROOT))
